@@ -288,9 +288,24 @@ Theorem C18_one_loop_per_session : forall h : list attempt,
   loops_of h = count is_att_ok h /\
   (forall a, In a h -> loops_started a = (if attempt_leaves_session a then 1 else 0)) /\
   (forall a, In a h -> o_loops (run_attempt a) = 0 -> o_session (run_attempt a) = true ->
-             o_closed (run_attempt a) = true).
+             o_closed (run_attempt a) = true /\ o_state (run_attempt a) = CsDisconnected) /\
+  (forall a, In a h -> o_state (run_attempt a) = CsEstablished -> attempt_leaves_session a = true).
 Proof.
-  intros h. split; [apply loops_of_count|]. split; intros a _; destruct a; cbn; congruence.
+  intros h. split; [apply loops_of_count|]. split; [|split]; intros a _; destruct a; cbn;
+    try congruence; intros; try split; congruence.
+Qed.
+
+(* The end of the session the application asks for (Client.Disconnect, StreamManager.Stop): the keep-alive
+   is stopped before the closing tag is written, so during the whole wait for the peer's closing tag (up to
+   ConnectTimeout) at most the one ping already past its poll goes out, and no Close by the loop. *)
+Theorem C18_disconnect_stops_keepalive_first : forall fail np ph pending rest,
+  (exists post, client_disconnect = DStopKeepalive :: post /\ In DWriteCloseTag post) /\
+  count is_ping (snd (ka_run fail (Running np) (resolve ph pending false (disconnect_events rest))))
+    <= b2n (past_poll ph) /\
+  count is_close (snd (ka_run fail (Running np) (resolve ph pending false (disconnect_events rest)))) = 0.
+Proof.
+  intros fail np ph pending rest. split; [eexists; split; [reflexivity|cbn; auto]|].
+  unfold disconnect_events. cbn [resolve]. split; [apply pings_once_closed|apply no_close_once_closed].
 Qed.
 
 (* Through NewClient every configured interval is usable: a non-positive one is replaced by the
@@ -367,6 +382,7 @@ Print Assumptions C18_no_quit_before_close.
 Print Assumptions C18_loop_touches_own_connection.
 Print Assumptions C18_no_close_on_later_connection.
 Print Assumptions C18_one_loop_per_session.
+Print Assumptions C18_disconnect_stops_keepalive_first.
 Print Assumptions C18_client_interval.
 Print Assumptions C18_nonpositive_interval.
 Print Assumptions C18_positive_interval.
